@@ -150,6 +150,8 @@ ACLS = [
     "",
     # written with a deeper base indentation than the other generators' ACL literals
     "            g ~ %global\n            s *\n                ~ %global\n            a\n            interface *\n                mtu\n",
+    # the same deletable child rules under a DIFFERENTLY WRITTEN parent rule that matches the same block header
+    "b */\\d+/\n    c\n    e\n    d *\ninterface */X\\d*/\n    mtu\n",
     "b *\n    ~ %global\ninterface * %cant_delete=0\n    mtu\nmtu\nc\n",
 ]
 
@@ -319,7 +321,7 @@ def _exclusive_conflict(tree, level, path=()):
 
 
 PG = PROGS
-NA = 6 if rt.TIER == "quick" else len(ACLS)
+NA = 7 if rt.TIER == "quick" else len(ACLS)
 RAD = [len(PG), NA, len(PG), NA]
 NCASE = RAD[0] * RAD[1] * RAD[2] * RAD[3]
 LO, HI = rt.shard_range(NCASE)
